@@ -109,7 +109,10 @@ class Model(object):
         return r
 
     def visit(self, content, kw, force):
-        """-> ('fail', why) | ('keep', content) | ('emit', bytes)"""
+        """-> ('fail', why) | ('keep', content) | ('emit', bytes) | ('either', bytes, content)
+        'either': the minified form has exactly the size of the source and differs from it; the statement
+        ("the untouched original when that would be larger" / "if minification would not shrink the file the
+        original bytes are passed through") admits both, so both are accepted."""
         if content is None:
             return ('fail', 'unreadable')
         r = self.api(content, kw)
@@ -118,6 +121,8 @@ class Model(object):
         out = r[1]
         if not force and len(out) > len(content):
             return ('keep', content)
+        if not force and len(out) == len(content) and out != content:
+            return ('either', out, content)
         return ('emit', out)
 
 
@@ -167,7 +172,7 @@ def walk_model(path_args, cwd):
     out = []
 
     def walk(d, depth):
-        if depth > 60:
+        if depth > 400:
             return
         try:
             names = sorted(os.listdir(d))
